@@ -6,6 +6,14 @@ DRIVER = "go.mongodb.org/mongo-driver BSON codec and Extended JSON (case seriali
 RAPID = "pgregory.net/rapid v1.3.0 generation and shrinking"
 
 CHECKS = {
+    "C13": {
+        "level": "exploration",
+        "rule": "rapid draws a collection of 0-12 (15%: 13-40) documents whose fields a,b,c come from a per-case palette of 2-5 values (numbers of several types, strings, null, arrays of scalars, empty array, sub-documents, arrays of sub-documents) so ties are frequent, a filter ({} in 50%, else from the C10 grammar biased to the documents), a sort of 1-3 keys over {a,b,c,a.b,a.c,_id} with directions, skip and limit in 0..6 and a distinct path; everything is executed through the driver API on a fresh in-memory engine. Oracle: unsorted Find = the documents the reference matcher selects, in insertion order; the full sorted result is a permutation of them, non-decreasing under the reference key order (ref.Cmp on min element ascending / max element descending, missing as null, reversed for -1) and stable; Find/FindOne/CountDocuments with skip/limit return exactly the window of the full ordering; sorted FindOneAndUpdate / FindOneAndDelete act on its first element; Distinct is strictly ascending and equals, as a set under BSON equality, the values at the path (array elements individually). Sort keys that are empty arrays or reached through an array are outside the order check (window checks still apply). Non-trivial = at least 4 matching documents, at least one tie under the sort, and 0 < skip < number of matches. distinct = FNV-64 of the canonical case.",
+        "assumptions": [REF + " (ref.Match, ref.Cmp, ref.Walk)", DRIVER, RAPID],
+        "subs": [
+            {"test": "TestProp_C13_window", "quick": 15000, "thorough": 2800000, "shards_q": 1, "shards_t": 14, "budget_q": 300, "budget_t": 1800},
+        ],
+    },
     "C11": {
         "level": "exploration",
         "rule": "Four generated sub-checks. single: (document, one operator, one path, argument, upsert flag) applied through mongokit.Apply and compared byte-for-byte with the independent reference ref.ApplyOp inside the domain of DESIGN.md 8.2 (all 14 operators incl. $push modifiers, all numeric type pairs incl. overflow boundaries, dotted and numeric paths; the reference classifies decimal arithmetic, empty $each on a missing field, width-only $bit changes etc. as Outside), accept/reject agreement, untouched fields keep value and position. driver: through lungo's driver API (UpdateOne on a 2-document collection): rejected updates leave every byte unchanged, ModifiedCount=1 iff the stored bytes changed, _id stays first and unchanged, the other document is untouched, and for $set/$unset/$min/$max/$addToSet/$pull/$pullAll a second application changes nothing and reports 0 modified. multi: a combined update of 2-3 operators on distinct top-level fields equals applying the operators one at a time. positional: a.$[] and a.$[x] (with 1-2 array filters, elements chosen by the reference matcher) equal the same operator on the explicit element paths. Non-trivial: the update changed the document on a nested/array path (single), was rejected (counted separately), changed the stored document (driver/multi) or touched at least one selected element (positional). distinct = FNV-64 of the canonical case per sub-check (capped 300000 per shard).",
